@@ -17,6 +17,8 @@ pub mod c13;
 pub mod c16;
 pub mod c17;
 pub mod c18;
+pub mod c19;
+pub mod c20;
 
 pub fn run(ctx: &Ctx) -> Option<PropReport> {
     Some(match ctx.prop.as_str() {
@@ -36,6 +38,8 @@ pub fn run(ctx: &Ctx) -> Option<PropReport> {
         "C16" => c16::run(ctx),
         "C17" => c17::run(ctx),
         "C18" => c18::run(ctx),
+        "C19" => c19::run(ctx),
+        "C20" => c20::run(ctx),
         _ => return None,
     })
 }
@@ -58,6 +62,8 @@ pub fn replay(ctx: &Ctx, sub: &str, case: &Value) -> Result<(), Fail> {
         "C16" => c16::replay(ctx, sub, case),
         "C17" => c17::replay(ctx, sub, case),
         "C18" => c18::replay(ctx, sub, case),
+        "C19" => c19::replay(ctx, sub, case),
+        "C20" => c20::replay(ctx, sub, case),
         _ => Err(Fail::new("replay-unsupported", "no replay for this property")),
     }
 }
@@ -87,6 +93,7 @@ pub fn exec_custom_journal(v: &Value) -> Result<(), String> {
     match v.get("kind").and_then(|x| x.as_str()).unwrap_or("") {
         "c06-closed" => c06::exec_journalled(v),
         "c13" => c13::exec_journalled(v),
+        "c20" => c20::exec_journalled(v),
         _ => Err("unknown journal kind".into()),
     }
 }
